@@ -207,6 +207,21 @@ func totalAlloc() uint64 {
 	return ms.TotalAlloc
 }
 
+// cheapAlloc is the cumulative number of heap bytes allocated, read without stopping the world
+// (runtime/metrics). Large objects are counted when they are allocated; small objects when their span
+// is handed back by the allocating P's cache, so the value can lag by at most one partially used span
+// per size class (well below the 256 KiB margin of the pre-filter below). runtime.ReadMemStats stops the
+// world and flushes every cache: at two calls per case it was most of the cost of a case on a loaded machine.
+var cheapSample = []metrics.Sample{{Name: "/gc/heap/allocs:bytes"}}
+
+func cheapAlloc() uint64 {
+	metrics.Read(cheapSample)
+	if cheapSample[0].Value.Kind() != metrics.KindUint64 {
+		return totalAlloc()
+	}
+	return cheapSample[0].Value.Uint64()
+}
+
 // checkCase applies the per-call oracle to one case.
 func checkCase(st *state, d *dog, sp *Spec, c Case) {
 	in := c.Input()
@@ -223,11 +238,11 @@ func checkCase(st *state, d *dog, sp *Spec, c Case) {
 	var m0, m1 uint64
 	bufA := poisoned(in, 0xA5)
 	if measure {
-		m0 = totalAlloc()
+		m0 = cheapAlloc()
 	}
 	a := guarded(d, sp, c, bufA)
 	if measure {
-		m1 = totalAlloc()
+		m1 = cheapAlloc()
 	}
 	b := guarded(d, sp, c, poisoned(in, 0x3C))
 
@@ -269,10 +284,14 @@ func checkCase(st *state, d *dog, sp *Spec, c Case) {
 			// few KiB of sync.Pool hit/miss variance cannot turn a borderline finding into a non-reproducing one
 			limit = limit * 7 / 8
 		}
-		if delta := m1 - m0; delta > limit {
-			// confirm: the minimum over three more measurements must exceed the limit too
-			minD := delta
-			// (a delta beyond 64 MiB cannot be background noise: no re-measurement, which would only repeat a huge allocation)
+		// pre-filter with the cheap counter at 3/4 of the limit, then decide on exact measurements
+		if delta := m1 - m0; delta > limit/4*3 {
+			// confirm: the minimum over three exact (ReadMemStats) measurements must exceed the limit
+			minD := ^uint64(0)
+			if delta > 64<<20 {
+				// (a delta beyond 64 MiB cannot be background noise or counter lag: no re-measurement, which would only repeat a huge allocation)
+				minD = delta
+			}
 			for i := 0; i < 3 && delta <= 64<<20; i++ {
 				bb := poisoned(in, 0xA5)
 				t0 := totalAlloc()
@@ -284,7 +303,7 @@ func checkCase(st *state, d *dog, sp *Spec, c Case) {
 			}
 			if minD > limit {
 				st.violation(fmt.Sprintf("%s class=%s allocation not bounded by the received bytes", c.Target, c.Class),
-					fmt.Sprintf("one call on %d received bytes allocated at least %d bytes (TotalAlloc delta, minimum of 4 measurements; limit 1MiB+%d*len = %d); outcome %s; frame %q, %s; input=%s",
+					fmt.Sprintf("one call on %d received bytes allocated at least %d bytes (TotalAlloc delta, minimum of 3 exact measurements; limit 1MiB+%d*len = %d); outcome %s; frame %q, %s; input=%s",
 						len(in), minD, allocPerByte, limit, clip(a.out, 200), c.Frame, c.Desc, clip(c.Hex, 600)), c)
 			}
 		}
